@@ -46,7 +46,15 @@ def _run_check(prop: str, root: Path) -> Tuple[int, List[str], List[str]]:
     ev = root / "_evidence"
     ev.mkdir(exist_ok=True)
     env = dict(os.environ, VERIF_REPO=str(root), VERIF_EVIDENCE_DIR=str(ev), VERIF_TIER="quick")
-    r = subprocess.run([PY, "-m", "sa.check", prop, "--tier", "quick"], cwd=str(VERIF), env=env, capture_output=True, text=True, timeout=900)
+    r = None
+    for attempt in (1, 2):  # a loaded machine (many checks self-testing at once) can make one run crawl: retry once with a longer limit before giving up
+        try:
+            r = subprocess.run([PY, "-m", "sa.check", prop, "--tier", "quick"], cwd=str(VERIF), env=env, capture_output=True, text=True, timeout=1800 * attempt)
+            break
+        except subprocess.TimeoutExpired:
+            if attempt == 2:
+                return 2, [f"ANALYSIS-ERROR property={prop}: self-test run on {root.name} did not finish within {1800 * attempt} s (machine overloaded?)"], []
+    assert r is not None
     lines = r.stdout.splitlines()
     viol = [lines[i - 1].strip() for i, l in enumerate(lines) if l.startswith("VIOLATION") and i > 0]
     known = sorted(l.split(" :: ")[0] for l in lines if l.startswith("KNOWN-FINDING:"))
@@ -191,7 +199,11 @@ def run_for(prop: str) -> int:
             rc_, v_, _k = _run_check(prop, root)
             shutil.rmtree(root, ignore_errors=True)
             return {"variant": label, "expected": "VIOLATION", "exit": rc_, "ok": rc_ == 1, "first": (v_[0][:160] if v_ else "")}
-        with ThreadPoolExecutor(max_workers=min(16, max(1, len(vars_)))) as ex:
+        try:
+            busy = os.getloadavg()[0] > (os.cpu_count() or 16)
+        except OSError:
+            busy = False
+        with ThreadPoolExecutor(max_workers=min(4 if busy else 16, max(1, len(vars_)))) as ex:
             for res in ex.map(one, vars_):
                 results.append(res)
                 if not res["ok"]:
